@@ -150,7 +150,8 @@ pub fn make_case(seed: u64, run: u64, thorough: bool, _stats: &mut Stats) -> Opt
     };
     let (name, mut src) = base(&mut r);
     let mut faults = Vec::new();
-    let nf = if r.chance(60) { 1 } else { r.urange(2, 3) };
+    // one case in ten stores the file intact: a valid program is an input text too
+    let nf = if r.chance(10) { 0 } else if r.chance(60) { 1 } else { r.urange(2, 3) };
     for _ in 0..nf {
         let len = src.len();
         match r.below(16) {
@@ -307,7 +308,7 @@ pub fn make_case(seed: u64, run: u64, thorough: bool, _stats: &mut Stats) -> Opt
     }
     let mut c = storage_case(seed, run, src, faults, r.chance(50));
     c.scn.stack_kib = *r.pick(&[2048usize, 4096, 8192, 8192]);
-    c.config = "seeded_faults".to_owned();
+    c.config = if nf == 0 { "fault_free".to_owned() } else { "seeded_faults".to_owned() };
     Some(c)
 }
 
@@ -397,6 +398,14 @@ pub fn judge(case: &Case, ex: &Exec) -> Vec<Violation> {
             v.push(Violation::new("C15:silent_failure", "the program was not executed and no diagnostic was printed".to_string()));
         }
     }
+    // a run loop that executes the same non-control instruction twice in a row from the same
+    // complete machine state, without consuming input in between, will do so forever
+    if let Some((idx, code)) = driver_fixed_point(h) {
+        v.push(Violation::new(
+            format!("C15:hang{{fixed_point;{}}}", code_class(&code)),
+            format!("instruction #{} ({}) was executed again from an identical machine state: the run can never end", idx, code),
+        ));
+    }
     for (parser, text, key) in &ex.parser_panics {
         let t: String = text.chars().take(120).collect();
         v.push(Violation::new(
@@ -425,4 +434,31 @@ pub fn judge(case: &Case, ex: &Exec) -> Vec<Violation> {
         }
     }
     v
+}
+
+/// Two consecutive run-loop iterations at the same instruction, with identical registers and
+/// memory and no input consumed in between, for an instruction that is not a control transfer
+/// (a program may legitimately jump to itself) and not a REP iteration.
+pub fn driver_fixed_point(h: &History) -> Option<(usize, String)> {
+    let mut prev: Option<(usize, &str, &[u16; 14])> = None;
+    let mut input_between = false;
+    for e in &h.events {
+        match e {
+            Event::Line { res: LineRes::Ok(_), .. } => input_between = true,
+            Event::Probe { idx, code, regs, mem } => {
+                if let Some((pi, pc, pr)) = prev {
+                    if pi == *idx && pr == regs && mem.is_empty() && !input_between {
+                        let cls = code_class(pc);
+                        if !matches!(cls, "jump" | "call" | "ret" | "rep" | "hlt") {
+                            return Some((pi, pc.to_owned()));
+                        }
+                    }
+                }
+                prev = Some((*idx, code.as_str(), regs));
+                input_between = false;
+            }
+            _ => {}
+        }
+    }
+    None
 }
